@@ -339,5 +339,74 @@ theorem flatMap_filter_hits3 (pts : Array (V3 K)) (O : V3 K) (INV : K) (ni nj nk
       triPairs3_filter pts O INV ni nj nk e w hw, List.filter_cons]
     split_ifs <;> simp
 
+/-! ### the ranges of the flattened map -/
+
+theorem scatter_size : ∀ (P : List (Nat × Nat)) (acc : Array Nat × Array Nat), (P.foldl scatter acc).1.size = acc.1.size
+  | [], _ => rfl
+  | p :: P, acc => by
+    rw [List.foldl_cons, scatter_size P]
+    simp [scatter]
+
+/-- **the ranges written by the first loop of `From<VoxelizedVolume>`** (map kept): `intersections` has one slot per entry of
+`primitive_intersections`; the range of every surface voxel has the length of its counter and ends inside `intersections`;
+the ranges of the surface voxels follow each other in voxel order without overlap. -/
+theorem toVoxelSet3K_ranges {K : Type} (v : Vol3K K) (hne : v.prims.isEmpty = false) (hsz : v.num.size = v.ni * v.nj * v.nk)
+    (hnum : ∀ id, v.num.getD id 0 = (v.prims.toList.filter (fun pr => pr.1 = id)).length) :
+    (toVoxelSet3K v).2.size = v.prims.size ∧
+    (∀ w ∈ (toVoxelSet3K v).1.toList, w.surf = true →
+      w.r1 = w.r0 + v.num.getD (idx3 v.ni v.nj w.i w.j w.k) 0 ∧ w.r1 ≤ v.prims.size) ∧
+    List.Pairwise (fun a b : Voxel3K => a.r1 ≤ b.r0) ((toVoxelSet3K v).1.toList.filter (·.surf)) := by
+  set ni := v.ni with hni
+  set nj := v.nj with hnj
+  set nk := v.nk with hnk
+  set P := v.prims.toList with hP
+  set L := cellsIn3 0 0 0 ni nj nk with hL
+  set st := L.foldl (fromCell3K ni nj v.vals true) ⟨#[], 0, v.num⟩ with hst
+  have hLin : ∀ c ∈ L, InB3 ni nj nk c := fun c hc =>
+    ⟨(mem_cellsIn3.mp hc).1.2, (mem_cellsIn3.mp hc).2.1.2, (mem_cellsIn3.mp hc).2.2.2⟩
+  have inv0 : FromInv3 ni nj nk v.vals v.num ⟨#[], 0, v.num⟩ [] :=
+    ⟨rfl, fun _ _ => rfl, by simp [SV3], by simp [SV3], by simp [SV3], by simp [SV3]⟩
+  have inv : FromInv3 ni nj nk v.vals v.num st L := by
+    have := fromLoop3_inv ni nj nk v.vals v.num hsz L _ [] inv0 hLin (by simp) (by simp) (cellsIn3_nodupK 0 0 0 ni nj nk)
+    simpa using this
+  have htv : toVoxelSet3K v = (st.voxels, (P.foldl scatter (Array.replicate v.prims.size 0, st.num)).1) := by
+    unfold toVoxelSet3K
+    simp only [hne, Bool.not_false, if_true]
+    rw [← Array.foldl_toList]
+  rw [htv]
+  simp only []
+  set ids := (SV3 st).map (fun w => idx3 ni nj w.i w.j w.k) with hids
+  have hidsnd : ids.Nodup := by
+    have h1 : ((SV3 st).map (fun w => (w.i, w.j, w.k))).Nodup := by
+      rw [inv.cells]; exact (cellsIn3_nodupK 0 0 0 ni nj nk).filter _
+    have h2 : ids = ((SV3 st).map (fun w => (w.i, w.j, w.k))).map (fun c => idx3 ni nj c.1 c.2.1 c.2.2) := by
+      rw [hids, List.map_map]; rfl
+    rw [h2]
+    apply List.Nodup.map_on _ h1
+    intro a ha b hb e
+    rw [inv.cells] at ha hb
+    have ha' := hLin a (List.mem_filter.mp ha).1
+    have hb' := hLin b (List.mem_filter.mp hb).1
+    have := idx3_inj ha'.1 hb'.1 ha'.2.1 hb'.2.1 e
+    exact Prod.ext this.1 (Prod.ext this.2.1 this.2.2)
+  have hcurr : st.curr ≤ P.length := by
+    rw [inv.curr]
+    have e : (SV3 st).map (fun w => v.num.getD (idx3 ni nj w.i w.j w.k) 0)
+        = ids.map (fun a => (P.filter (fun pr => pr.1 = a)).length) := by
+      rw [hids, List.map_map]
+      apply List.map_congr_left
+      intro w _
+      simp only [Function.comp]
+      exact hnum _
+    rw [e]
+    exact sum_count_le P ids hidsnd
+  refine ⟨by rw [scatter_size]; simp, ?_, inv.pair⟩
+  intro w hw hws
+  have hwsv : w ∈ SV3 st := List.mem_filter.mpr ⟨hw, by simpa using hws⟩
+  obtain ⟨e1, e2, _⟩ := inv.each w hwsv
+  refine ⟨e1, ?_⟩
+  have : P.length = v.prims.size := by simp [hP]
+  omega
+
 end
 end C18
